@@ -1,9 +1,7 @@
 CONSTANTS Scope = "quick"
           Mech = "law"
           Loose = FALSE
-          PlanSet = {"FII", "SEFI", "FEFI", "FFII", "FRFI", "FIFI"}
+          PlanSet = {"FII"}
 INIT Init
 NEXT Next
-
-
 CONSTRAINT GenDone
